@@ -129,12 +129,20 @@ def run(ctx):
         kinds = set()
         for i, p in enumerate(backs):
             emits = [e for e in p.events if ev_is(e, "Vec::push") and on(e, "indexes")]
-            clears = [e for e in p.events if ev_is(e, "String::clear") and on(e, "buffer")]
+            # emptying the buffer, in any spelling: clear(), truncate(0), drain(..) as a statement
+            clears = [e for e in p.events if e.kind == "call" and on(e, "buffer") and (ev_is(e, "String::clear") or (ev_is(e, "String::truncate") and const_int(e.args[1]) == 0)
+                                                                  or (ev_is(e, "String::drain") and agg_variant(e.args[1]) and agg_variant(e.args[1])[1] == "RangeFull"))]
             appends = [e for e in p.events if ev_is(e, "String::push_str") and on(e, "buffer")]
             nls = [e for e in p.events if ev_is(e, "String::push") and on(e, "buffer")]
             blank = [c for c in p.conds() if is_call(c.term, "str>::is_empty") and mentions(c.term, lambda s: is_call(s, "str>::trim"))]
             is_blank = bool(blank) and blank[0].fact == ("eq", True)
             start = [c for c in p.conds() if is_call(c.term, "str>::starts_with") and const_str(call_args(c.term)[1]) == sp["record_start"]]
+            # the boundary test looks at the line as read (trimmed of surrounding blanks), not at a case-folded or otherwise rewritten copy
+            for c in start:
+                rew = sorted({mir.norm_path(s_[1]).rsplit("::", 1)[-1] for s_ in subterms(call_args(c.term)[0]) if is_call(s_, "::to_ascii_uppercase", "::to_uppercase", "::to_ascii_lowercase", "::to_lowercase", "::replace", "::trim_matches", "::trim_start_matches")})
+                if rew and ("rewritten", c.bb) not in kinds:
+                    kinds.add(("rewritten", c.bb))
+                    ctx.violation("D2-SEGMENT", FR, "boundary-test-on-line-as-read", "the record boundary is tested on a rewritten copy of the line (%s): lines that merely resemble PKGNAME= would start a record" % rew, body.span_of(c.bb))
             nonempty = [c for c in p.conds() if is_call(c.term, "String::is_empty") and names.get(strip_refs(call_args(c.term)[0])[1] if isinstance(strip_refs(call_args(c.term)[0]), tuple) and strip_refs(call_args(c.term)[0])[0] in ("havoc", "mutated") else -1) == "buffer"]
             if is_blank:
                 kinds.add("blank")
